@@ -369,6 +369,82 @@ def d3(cx: Cx, ob: Ob) -> None:
                             ob.violate(fn.qualname, where(fn, ev.line), f"the header is tested for the multi-character literal {x[2][1]!r}, which hard-codes 'no optional whitespace'", detail=f"separator:{x[2][1]}")
 
 
+def _rdflib_invalid_chars() -> frozenset:
+    """The characters rdflib.term._is_valid_uri refuses, read from the installed rdflib's source (frozen copy of
+    rdflib 7: `_invalid_uri_chars`) - the reference a vendored copy of the test is compared with."""
+    import ast
+    import importlib.util
+
+    frozen = frozenset('<>" {}|\\^`')
+    try:
+        spec = importlib.util.find_spec("rdflib")
+        src = open(spec.origin.rsplit("/", 1)[0] + "/term.py", encoding="utf-8").read()
+        for n in ast.parse(src).body:
+            if isinstance(n, ast.Assign) and any(isinstance(t, ast.Name) and t.id == "_invalid_uri_chars" for t in n.targets) and isinstance(n.value, ast.Constant) and isinstance(n.value.value, str):
+                return frozenset(n.value.value)
+    except Exception:  # noqa: BLE001
+        pass
+    return frozen
+
+
+def _own_validity_test(cx: Cx, c, tgt):
+    """Judge a filter condition that is a validity test written in the package: None = not such a test; True = the
+    same forbidden characters as rdflib's; False = shape recognised, set not established; (more, fewer) = differs."""
+    chars = None
+    # REGEX.search(uri) is None  /  not REGEX.search(uri)
+    core = c[1] if op(c) == "not" else c
+    call = None
+    if op(c) == "cmp" and c[1] == "is" and is_const(c[3], None):
+        call = c[2]
+    elif op(c) == "not":
+        call = core
+    if op(call) == "call" and op(call[1]) == "attr" and call[1][2] == "search" and call[2] == (tgt,) and op(call[1][1]) == "gconst":
+        import re._parser as P
+
+        mod = cx.model.modules.get(call[1][1][1])
+        try:
+            v = cx.model.const_value(mod, call[1][1][2]) if mod is not None else None
+        except Exception:  # noqa: BLE001
+            v = None
+        if not (isinstance(v, tuple) and len(v) == 3 and v[0] == "regex" and isinstance(v[1], str)):
+            return False
+        try:
+            items = list(P.parse(v[1], v[2]))
+        except Exception:  # noqa: BLE001
+            return False
+        if len(items) == 1 and str(items[0][0]) == "IN":
+            chars = set()
+            for k, a in items[0][1]:
+                if str(k) == "LITERAL":
+                    chars.add(chr(a))
+                elif str(k) == "CATEGORY" and str(a) == "CATEGORY_SPACE":
+                    chars |= {chr(i) for i in range(0x3000 + 1) if chr(i).isspace()}
+                elif str(k) == "RANGE":
+                    chars |= {chr(i) for i in range(a[0], a[1] + 1)}
+                else:
+                    return False
+        elif len(items) == 1 and str(items[0][0]) == "LITERAL":
+            chars = {chr(items[0][1])}
+        else:
+            return False
+    # not any(ch in uri for ch in CHARS)  /  all(ch not in uri for ch in CHARS)
+    inner = c[1] if op(c) == "not" else c
+    if chars is None and op(inner) == "call" and inner[1] in (("builtin", "any"), ("builtin", "all")) and len(inner[2]) == 1 and op(inner[2][0]) == "comp" and len(inner[2][0][3]) == 1:
+        comp = inner[2][0]
+        v_, src, conds = comp[3][0]
+        want = ("in", True) if inner[1][1] == "any" else ("not in", False)
+        if (op(c) == "not") == want[1] and not conds and op(comp[2]) == "cmp" and comp[2][1] == want[0] and comp[2][2] == v_ and comp[2][3] == tgt and is_const(src) and isinstance(src[1], str):
+            chars = set(src[1])
+        else:
+            return None
+    if chars is None:
+        return None
+    ref = _rdflib_invalid_chars()
+    if chars == set(ref):
+        return True
+    return (chars - ref, ref - chars)
+
+
 @obligation("C18-D4", "_expand_pair_all = parse_uri(u, return_none=True) -> [] on None, else expand_pair_all(prefix, identifier, strict=True) filtered by rdflib's _is_valid_uri", floor=1)
 def d4(cx: Cx, ob: Ob) -> None:
     fn = cx.fn(f"{A}.MappingServiceGraph._expand_pair_all", ob.id)
@@ -430,6 +506,28 @@ def d4(cx: Cx, ob: Ob) -> None:
         elif t[2] != ("call", ("ext", "rdflib.URIRef"), (tgt,), ()):
             ob.violate(fn.qualname, where(fn, line), f"answers are `{show(t[2])[:40]}`, not URIRef(uri)", detail="element")
         valid = [c for c in ifs if op(c) == "call" and callee_name(c) == "_is_valid_uri" and c[2] == (tgt,)]
+        for c in ifs:
+            if c in valid:
+                continue
+            v = _own_validity_test(cx, c, tgt)
+            if v is None:
+                continue
+            if v is True:
+                valid.append(c)
+                ob.site(f"{where(fn, line)} {fn.qualname}", "the package's own copy of rdflib's validity test: the same set of forbidden characters")
+            elif v is False:
+                ob.undecide("_expand_pair_all filters with a test of its own whose character set was not established")
+                valid.append(c)
+            else:
+                more, fewer = v
+                ob.violate(
+                    fn.qualname,
+                    where(fn, line),
+                    f"the package's own validity test forbids {'also ' + repr(''.join(sorted(more))) if more else ''}{' and ' if more and fewer else ''}{'no longer ' + repr(''.join(sorted(fewer))) if fewer else ''} compared with rdflib's `_is_valid_uri` ({sorted(_rdflib_invalid_chars())!r}): equivalent URIs that rdflib can serialise are dropped from the answer, or ones it cannot are kept and break the serialisation",
+                    witness="an equivalent URI containing one of the characters the two tests disagree on",
+                    detail="validity-chars",
+                )
+                valid.append(c)
         if not valid:
             ob.violate(fn.qualname, where(fn, line), "syntactically invalid URIs are not filtered out", detail="validity-filter")
         if len(ifs) > len(valid):
